@@ -9,6 +9,7 @@ import (
 	"io"
 	"net"
 	"sort"
+	"strings"
 
 	"github.com/hashicorp/serf/serf"
 	"go.uber.org/zap"
@@ -469,6 +470,23 @@ func verifServePeer(p *peer) {
 			conn.Close()
 			if exited() {
 				return
+			}
+			if strings.Contains(err.Error(), "has not yet joined") {
+				// the other node does not list us as a member (it saw us fail): the real loop
+				// keeps retrying with a back-off until it sees us join again; modelled as waiting
+				to := p.member.Name
+				vsched.WaitUntil("fed.retry-until-known-to-peer", func() bool {
+					if exited() || n.Net.Down[key] {
+						return true
+					}
+					other := n.Net.Nodes[to]
+					if other == nil {
+						return false
+					}
+					_, known := other.F.peers[n.Name]
+					return known
+				})
+				continue
 			}
 			n.Net.Retries++
 			if n.Net.Retries > 200 {
